@@ -142,6 +142,9 @@ def noise(rng, maxlen):
 # ---------------------------------------------------------------------------------------------------------------
 IFMACS = [OWN, OWN2, '00005e000001']
 BLOBS = ['none', '-', 'gen:5:7', 'gen:300:1', 'gen:542:2', 'gen:543:3', 'gen:3000:4']
+# hardware identifiers (UCS-2LE): ASCII, characters whose LOW byte is zero (U+4E00, U+0100, U+3000), full 64 bytes, an embedded NUL character
+HWIDS = ['-', '4100', '41004200430044004500', 'ab' * 64, '4100004e4200', '00014100', '4d006f00640065006c002d004100004e2d003700',
+         '4100' * 10 + '0001' + '4200' * 21, '41004200000043004400', '0030']
 
 
 def universal(rng, nif=None, length=None, with_glob_changes=True):
@@ -157,7 +160,7 @@ def universal(rng, nif=None, length=None, with_glob_changes=True):
         ops.append(iface_line(i, mac=macs[i], mtu=mtus[i], **kw))
     hostlen = rng.choice([0, 1, 6, 6, 31, 32, 33, 40])
     ops.append(glob_line(host=(''.join('%02x' % rng.randrange(1, 256) for _ in range(hostlen)) or '-'), hostrep=rng.choice(['copied', 'copied', 'full']),
-                         icon=rng.choice(BLOBS), fname=rng.choice(BLOBS[:5] + ['4c004c00']), hwid=rng.choice(['-', '4100', '41004200430044004500', 'ab' * 64])))
+                         icon=rng.choice(BLOBS), fname=rng.choice(BLOBS[:5] + ['4c004c00']), hwid=rng.choice(HWIDS)))
     pool = STATIONS[:4]
     mapper = [None] * nif          # who the generator believes is active (only a bias for choosing senders)
     seen_src = [[] for _ in range(nif)]
@@ -224,8 +227,10 @@ def universal(rng, nif=None, length=None, with_glob_changes=True):
         if len(f) // 2 > mtu:
             f = f[:2 * mtu]
         ops.append('rx %d %s%s' % (i, f or '-', z))
-        if with_glob_changes and rng.random() < 0.03:
-            ops.append('glob icon=%s' % rng.choice(BLOBS))
+        if with_glob_changes and rng.random() < 0.05:
+            ops.append(rng.choice(['glob icon=%s' % rng.choice(BLOBS), 'glob fname=%s' % rng.choice(BLOBS[:5]),
+                                   'glob host=%s' % (''.join('%02x' % rng.randrange(1, 256) for _ in range(rng.choice([0, 2, 13, 32, 33]))) or '-'),
+                                   'glob hwid=%s' % rng.choice(HWIDS)]))
     for i in range(nif):
         ops.append('dump %d' % i)
     return ops
